@@ -5,24 +5,6 @@
 #[derive(Clone)]
 struct Opaque {}
 
-#[verifier::external_body]
-fn shim_le_u16(b: &[u8], lo: usize, hi: usize) -> (r: Result<u16>)
-    requires lo + 2 == hi, hi <= b@.len()
-    ensures r is Ok, r->Ok_0 as int == b@[lo as int] as int + 256 * (b@[lo + 1] as int)
-{ Ok(u16::from_le_bytes([b[lo], b[lo + 1]])) }
-#[verifier::external_body]
-fn shim_le_u64(b: &[u8], lo: usize, hi: usize) -> (r: Result<u64>)
-    requires lo + 8 == hi, hi <= b@.len()
-    ensures r is Ok, r->Ok_0 == le64(b@.subrange(lo as int, hi as int))
-{ unimplemented!() }
-#[verifier::external_body]
-fn shim_u16_from_le_bytes(b: [u8; 2]) -> (r: u16)
-    ensures r as int == b@[0] as int + 256 * (b@[1] as int)
-{ u16::from_le_bytes(b) }
-spec fn le64(b: Seq<u8>) -> u64 {
-    (b[0] as u64) | (b[1] as u64) << 8 | (b[2] as u64) << 16 | (b[3] as u64) << 24
-    | (b[4] as u64) << 32 | (b[5] as u64) << 40 | (b[6] as u64) << 48 | (b[7] as u64) << 56
-}
 spec fn up4(p: int) -> int { if p % 4 == 0 { p } else { p + 4 - p % 4 } }
 
 impl PagedReader {
@@ -129,7 +111,7 @@ impl CompressedVectorSectionHeader {
         ensures final(reader).wf(), final(reader).same_file(old(reader)),
             match r { Ok(h) => final(reader).offset == old(reader).offset + 32
                         && old(reader).lbyte(old(reader).offset as int) == 1u8 && h.section_length % 4 == 0
-                        && h.data_offset == le64(Seq::new(8, |i: int| old(reader).lbyte(old(reader).offset + 16 + i))),
+                        && le_bytes64(h.data_offset) == Seq::new(8, |i: int| old(reader).lbyte(old(reader).offset + 16 + i)),
                       Err(_) => true },
 //@endfn
 }
